@@ -1705,6 +1705,179 @@ Section Defs.
         rewrite E. apply in_or_app. right. now left.
   Qed.
 
+  (** ** what one reader step does to the delivery log, the queue and the reader's position *)
+  Lemma fold_deliver_dlog o mu last ff m s :
+    (mu = true \/ last = true) ->
+    p_dlog (fold_left (apply_act o mu) ((if mu then [AStore ff m] else []) ++ (if last then [AComplete m] else [])) s) =
+    p_dlog s ++ [(o, (if mu then ff else 0%nat), m)].
+  Proof. intros H. destruct mu, last; cbn; try reflexivity. destruct H; discriminate. Qed.
+
+  Definition step_effect (s s' : pstate) (r r' : rstate) : Prop :=
+    q_pend (p_q s') = q_pend (p_q s) /\ p_wlog s' = p_wlog s /\
+    (forall t, k_pc (p_calls s' t) = k_pc (p_calls s t) /\ k_drain (p_calls s' t) = k_drain (p_calls s t)) /\
+    (forall t, k_comp (p_calls s' t) = false -> k_comp (p_calls s t) = false) /\
+    ((p_dlog s' = p_dlog s /\ q_wr (p_q s') = q_wr (p_q s) /\ r_owner r' = r_owner r /\ r_multi r' = r_multi r /\ r_ff r' = r_ff r) \/
+     (exists c L,
+         skipn (r_ff r) (r_multi r) ++ flat_map s_cmds (q_wr (p_q s)) = c :: L /\
+         p_dlog s' = p_dlog s ++ [(r_owner r', pred (r_ff r'), result_of sv c)] /\
+         skipn (r_ff r') (r_multi r') ++ flat_map s_cmds (q_wr (p_q s')) = L /\
+         ((q_wr (p_q s') = q_wr (p_q s) /\ r_owner r' = r_owner r /\ r_multi r' = r_multi r /\ r_ff r' = S (r_ff r) /\
+           (r_ff r < List.length (r_multi r))%nat) \/
+          (exists sl, q_wr (p_q s) = sl :: q_wr (p_q s') /\ r_owner r' = s_owner sl /\ r_multi r' = s_cmds sl /\ r_ff r' = 1%nat /\
+                      r_ff r = List.length (r_multi r))) /\
+         (r_ff r' = List.length (r_multi r') -> k_comp (p_calls s' (r_owner r')) = true))).
+
+  Lemma reply_effect s r f rest0 c L st2 tk preA preB skip' s' :
+    InvB s -> p_b s = BRead r -> p_s2c s = f :: rest0 ->
+    skipn (r_ff r) (r_multi r) ++ flat_map s_cmds (q_wr (p_q s)) = c :: L ->
+    lands (hd_error (q_wr (p_q s))) r c st2 tk ->
+    forallb inert preA = true -> forallb inert preB = true ->
+    reader_step (g_r2ps g) (g_ver g) (hd_error (q_wr (p_q s))) r f =
+      rd_store (set_skip st2 skip') (preA ++ tk ++ preB) (result_of sv c) ->
+    pstep g s LRStep = Some s' ->
+    exists r', p_b s' = BRead r' /\ step_effect s s' r r'.
+  Proof.
+    intros I Eb Es EL Hl HA HB Er H.
+    cbn [pstep] in H. rewrite Eb, Es, Er, rd_store_acts in H.
+    cbn [r_ff r_resps r_multi r_owner set_ff set_skip] in H.
+    set (m := result_of sv c) in *.
+    set (ff2 := r_ff st2) in *. set (mu := r_resps st2) in *. set (multi2 := r_multi st2) in *. set (o := r_owner st2) in *.
+    set (last := Nat.eqb (S ff2) (List.length multi2)) in *.
+    set (deliv := (if mu then [AStore ff2 m] else []) ++ (if last then [AComplete m] else [])) in *.
+    assert (Hnb : existsb is_bad ((preA ++ tk ++ preB) ++ deliv) = false).
+    { apply existsb_app_false; [apply existsb_app_false; [now apply inert_not_bad|apply existsb_app_false; [|now apply inert_not_bad]]|].
+      - destruct Hl; reflexivity.
+      - unfold deliv. destruct mu, last; reflexivity. }
+    rewrite Hnb in H. inversion H; subst s'; clear H.
+    rewrite fold_left_app.
+    set (s1 := set_wire s (p_c2s s) rest0).
+    destruct (b_cur s I r Eb) as (F&K1&K2&K3).
+    pose proof (lands_nth _ _ _ _ _ Hl) as Hnth. fold multi2 ff2 in Hnth.
+    assert (Hlt : (ff2 < List.length multi2)%nat) by (apply nth_error_Some; congruence).
+    destruct (reply_lands s r c L I Eb EL) as (st2'&tk'&Hl'&Hdesc).
+    assert (Est : st2' = st2 /\ tk' = tk).
+    { destruct Hl as [A1 A2|sl rest A1 A2 A3]; destruct Hl' as [B1 B2|sl' rest' B1 B2 B3]; try lia; auto.
+      rewrite A2 in B2. inversion B2; subst sl'. auto. }
+    destruct Est as [-> ->].
+    (* the record of the owner *)
+    assert (Hown : exists sT, sT = fold_left (apply_act o mu) (preA ++ tk ++ preB) s1 /\
+                     p_calls sT = p_calls s /\ p_dlog sT = p_dlog s /\ q_pend (p_q sT) = q_pend (p_q s) /\
+                     p_wlog sT = p_wlog s /\
+                     owner_ok (mkSlot o mu multi2) (p_calls s o) /\
+                     q_wr (p_q sT) = match tk with [] => q_wr (p_q s) | _ => tl (q_wr (p_q s)) end).
+    { destruct Hdesc as [(D1&D2&D3&D4)|(sl&wr'&D1&D2&D3&D4&D5)].
+      - subst tk st2. exists s1. rewrite app_nil_l.
+        assert (Hin : forallb inert (preA ++ preB) = true) by (rewrite forallb_app, HA, HB; reflexivity).
+        rewrite (fold_inert _ _ _ _ Hin).
+        assert (El : Nat.ltb (r_ff r) (List.length (r_multi r)) = true) by (apply Nat.ltb_lt; exact D3).
+        rewrite El in K3. destruct K3 as (_&Q2&_).
+        split; [reflexivity|split; [reflexivity|split; [reflexivity|split; [reflexivity|split; [reflexivity|split; [exact Q2|reflexivity]]]]]].
+      - subst tk st2. cbn [set_slot r_ff r_resps r_multi r_owner] in *.
+        exists (set_q s1 (mkQueue (q_cap (p_q s)) (q_pend (p_q s)) wr' true)).
+        rewrite fold_left_app, (fold_inert _ _ _ _ HA). cbn [fold_left app]. rewrite (fold_inert _ _ _ _ HB).
+        assert (Ent : apply_act o mu s1 (ATakeNext true) = set_q s1 (mkQueue (q_cap (p_q s)) (q_pend (p_q s)) wr' true)).
+        { unfold apply_act, q_next_result, s1. cbn [p_q set_wire]. rewrite D3. reflexivity. }
+        rewrite Ent.
+        assert (Hsl : In sl (q_pend (p_q s) ++ q_wr (p_q s))) by (apply in_or_app; right; rewrite D3; now left).
+        destruct (b_queue s I sl Hsl) as [Ho _].
+        split; [reflexivity|split; [reflexivity|split; [reflexivity|split; [reflexivity|split; [reflexivity|split]]]]].
+        + unfold o, mu, multi2. rewrite slot_eta. exact Ho.
+        + cbn. now rewrite D3. }
+    destruct Hown as (sT&EsT&Tc&Td&Tp&Tw&Ho&Twr).
+    rewrite <- EsT.
+    destruct Ho as (O1&O2&O3&O4). cbn in O1, O2.
+    destruct (b_rec s I o) as (W&_).
+    assert (Hpc : k_pc (p_calls s o) <> PIdle) by (destruct O4 as [K|[K _]]; rewrite K; discriminate).
+    destruct (W Hpc) as (W1&W2&W3).
+    assert (Hml : mu = true \/ last = true).
+    { destruct W3 as [W3|W3]; [left; congruence|right]. unfold last. apply Nat.eqb_eq. rewrite <- O2 in W3. lia. }
+    pose proof (fold_deliver_spec o mu last ff2 m sT Hml) as Hspec. cbn zeta in Hspec. fold deliv in Hspec.
+    destruct Hspec as (Dq&Do&Dt).
+    pose proof (fold_deliver_dlog o mu last ff2 m sT Hml) as Hdl. fold deliv in Hdl.
+    pose proof (fold_apply_same_ctl o mu deliv sT) as Hctl.
+    destruct Hctl as (a1&a2&a3&a4&a5&a6&a7&a8&a9&a10&a11&a12&a13&a14&a15&a16&a17&a18).
+    pose proof (fold_apply_same_ctl o mu (preA ++ tk ++ preB) s1) as Hctl1. rewrite <- EsT in Hctl1.
+    destruct Hctl1 as (_&_&_&_&_&_&_&_&_&_&_&_&_&_&_&_&_&b18).
+    assert (Hidx : (if mu then ff2 else 0%nat) = ff2).
+    { destruct mu eqn:Em; [reflexivity|]. destruct W3 as [W3|W3]; [congruence|]. rewrite <- O2 in W3. lia. }
+    eexists. split; [reflexivity|].
+    unfold step_effect. cbn [p_q p_wlog p_calls p_dlog set_b r_owner r_multi r_ff set_ff set_skip].
+    split; [rewrite Dq; destruct last; cbn; exact Tp|].
+    split; [rewrite a16; exact Tw|].
+    split.
+    { intros t. destruct (a18 t) as (c1&c2&_). destruct (b18 t) as (d1&d2&_). cbn in d1, d2. split; congruence. }
+    split.
+    { intros t Ht. destruct (N.eq_dec t o) as [->|Nt].
+      - rewrite <- Tc. rewrite Dt in Ht. destruct last; cbn in Ht; [discriminate|]. rewrite Tc. exact O3.
+      - rewrite Do in Ht by assumption. now rewrite <- Tc. }
+    right. exists c, L. split; [exact EL|].
+    split; [rewrite Hdl, Td, Hidx; reflexivity|].
+    assert (Hwr' : q_wr (p_q (fold_left (apply_act o mu) deliv sT)) = q_wr (p_q sT)) by (rewrite Dq; destruct last; reflexivity).
+    rewrite Hwr', Twr.
+    destruct Hdesc as [(D1&D2&D3&D4)|(sl&wr'&D1&D2&D3&D4&D5)].
+    - subst tk st2. split; [symmetry; exact D4|]. split.
+      + left. repeat split; auto.
+      + intros Hfull. assert (El : last = true) by (unfold last; apply Nat.eqb_eq; exact Hfull).
+        rewrite El in Dt. change (k_comp (p_calls (fold_left (apply_act o mu) deliv sT) o) = true). rewrite Dt. reflexivity.
+    - subst tk st2. cbn [set_slot r_ff r_resps r_multi r_owner] in *. rewrite D3. cbn [tl].
+      split; [symmetry; exact D5|]. split.
+      + right. exists sl. repeat split; auto.
+      + intros Hfull. assert (El : last = true) by (unfold last; apply Nat.eqb_eq; exact Hfull).
+        rewrite El in Dt. change (k_comp (p_calls (fold_left (apply_act o mu) deliv sT) o) = true). rewrite Dt. reflexivity.
+  Qed.
+
+  Lemma quiet_effect s r r' rest0 :
+    p_b s = BRead r -> r_owner r' = r_owner r -> r_multi r' = r_multi r -> r_ff r' = r_ff r ->
+    step_effect s (set_b (set_wire s (p_c2s s) rest0) (BRead r')) r r'.
+  Proof.
+    intros Eb e1 e2 e3. unfold step_effect; cbn. repeat split; auto. left. repeat split; auto.
+  Qed.
+
+  Theorem rstep_effect s s' :
+    InvB s -> pstep g s LRStep = Some s' ->
+    exists r r', p_b s = BRead r /\ p_b s' = BRead r' /\ step_effect s s' r r'.
+  Proof.
+    intros I H.
+    destruct (p_b s) as [|r| | | |] eqn:Eb; try (cbn [pstep] in H; rewrite Eb in H; discriminate).
+    destruct (p_s2c s) as [|f rest0] eqn:Es; [cbn [pstep] in H; rewrite Eb, Es in H; discriminate|].
+    destruct (b_cur s I r Eb) as (F&K1&K2&K3).
+    destruct (b_coh s I r Eb) as (conf&rest&csd&csr&E1&E2&E3&E4&E5&E6).
+    rewrite Es in E1. exists r.
+    destruct conf as [|f' conf'].
+    - cbn in E1, E2. subst rest.
+      apply served_inv in E4 as [[P1 P2]|(c&csd'&tl&fs'&X1&X2&X3&X4)].
+      + destruct (reader_step_free (g_r2ps g) (g_ver g) (hd_error (q_wr (p_q s))) r f P1 F ltac:(lia)) as (pa&Er&Hpa).
+        cbn [pstep] in H. rewrite Eb, Es, Er in H. rewrite (apush_not_bad _ Hpa) in H.
+        rewrite (fold_inert _ _ _ _ (apush_inert _ Hpa)) in H. inversion H; subst s'.
+        exists r. split; [reflexivity|split; [reflexivity|]]. apply quiet_effect; auto.
+      + subst csd. cbn [app] in E5.
+        destruct (reply_lands s r c (csd' ++ csr) I Eb E5) as (st2&tk&Hl&_).
+        destruct (kind_of_cmd c) as [Ku Kn Kw Kp Kr|Ku Kn Kw Kc Ka Kl Kr|Ku Kw Kp Ki Kq Kr].
+        * rewrite Kw in X2. cbn in X2. inversion X2; subst f tl.
+          destruct (reader_step_normal (g_r2ps g) (g_ver g) Hver _ r _ c st2 tk F Kp Kn Ku Hl) as (pre&Er&Hpre).
+          destruct (reply_effect s r _ rest0 c (csd' ++ csr) st2 tk [] pre (r_skip st2) s' I Eb Es E5 Hl eq_refl Hpre) as (r'&Hb'&He); auto.
+          { rewrite Er, Kr, set_skip_id. reflexivity. }
+          exists r'. auto.
+        * rewrite Kw in X2. cbn in X2.
+          assert (Hf : sub_confirm r2ps f = true).
+          { rewrite X2 in Kc. cbn in Kc. apply andb_true_iff in Kc. apply Kc. }
+          destruct (reader_step_sub (g_r2ps g) (g_ver g) _ r f c st2 tk F ltac:(lia) Hf Kn Hl) as (pre1&pre2&Er&Hp1&Hp2).
+          destruct (reply_effect s r f rest0 c (csd' ++ csr) st2 tk pre1 pre2 (Z.of_nat (c_argc c) - 2)%Z s' I Eb Es E5 Hl Hp1 Hp2) as (r'&Hb'&He); auto.
+          { rewrite Er, Kr. reflexivity. }
+          exists r'. auto.
+        * rewrite Kw in X2. cbn in X2. inversion X2; subst f tl.
+          destruct (reader_step_pong (g_r2ps g) (g_ver g) Hver _ r _ c st2 tk F Kp Ku Ki Kq Hl) as (pre&Er&Hpre).
+          destruct (reply_effect s r _ rest0 c (csd' ++ csr) st2 tk [] pre (r_skip st2) s' I Eb Es E5 Hl eq_refl Hpre) as (r'&Hb'&He); auto.
+          { rewrite Er, Kr, set_skip_id. reflexivity. }
+          exists r'. auto.
+    - cbn [app] in E1. inversion E1; subst f' rest0. cbn [forallb] in E3. apply andb_true_iff in E3 as [Hf Htl].
+      cbn [List.length] in E2.
+      destruct (reader_step_conf (g_r2ps g) (g_ver g) (hd_error (q_wr (p_q s))) r f Hf F ltac:(lia)) as (pa&Er&Hpa).
+      cbn [pstep] in H. rewrite Eb, Es, Er in H. rewrite (apush_not_bad _ Hpa) in H.
+      rewrite (fold_inert _ _ _ _ (apush_inert _ Hpa)) in H. inversion H; subst s'.
+      exists (set_skip r (r_skip r - 1)%Z). split; [reflexivity|split; [reflexivity|]]. apply quiet_effect; auto.
+  Qed.
+
   (** * the reader never hits `panic(protocolbug)` *)
   Lemma rstep_some s r f rest0 acts r' :
     p_b s = BRead r -> p_s2c s = f :: rest0 ->
